@@ -83,7 +83,7 @@ PLANS = {
         module='RucteProps.C02',
         theorems=['Esc.C02.toHtml_any_schedule', 'Esc.C02.toHtml_prefix', 'Esc.C02.unescape_escape',
                   'Esc.C02.escape_no_raw', 'Esc.C02.entity_table_matches_source', 'Esc.C02.toHtml_decodes'],
-        needs_tables=True,
+        needs_tables=['entities'],
         runs=[dict(suite='html', n=dict(quick=20000, thorough=600000), projection='identity', tags=['C02'])],
         correspondence='bytes accepted by the sink and Ok/Err result of ToHtml::to_html (public API) vs Esc.toHtmlDisplay, for the same (pieces, schedule)',
         rule='exhaustive: all strings over {<,>,&,",\',a,é,space} up to length 3 (quick) / 4 (thorough) x all compositions into pieces x all schedules over {accept 1, accept 2, accept all, Interrupted} up to length 3 / 4 (all schedules for the finest and coarsest chunkings, every 7th otherwise); random: long strings, random chunking, schedules with Ok(0) and permanent failure. non-trivial = text contains a special byte; distinct = distinct (mode, text)',
@@ -121,9 +121,10 @@ PLANS = {
     ),
     'C01': dict(
         module='RucteProps.C01',
-        extra_modules=['RucteProps.C01Nodes', 'RucteProps.C01Body', 'RucteProps.C15Tree', 'RucteProps.C13Header'],
+        extra_modules=['RucteProps.C01Nodes', 'RucteProps.C01Body', 'RucteProps.C01Blocks', 'RucteProps.C15Tree', 'RucteProps.C13Header'],
         theorems=['Ructe.C01.textLit_ascii', 'Ructe.C01.textLit_nonascii', 'Ructe.C01.lower_text', 'Ructe.C01.render_text', 'Ructe.C01.text_node_sound', 'Ructe.C01.comment_node_sound', 'Ructe.C01.node_consumes', 'Ructe.C01.text_complete', 'Ructe.C01.escapes_complete', 'Ructe.C15Tree.body_complete', 'Ructe.C13Header.template_complete',
-                  'Ructe.C01.body_accounting', 'Ructe.C01.literal_bytes_accounted', 'Ructe.C01.block_accounting', 'Ructe.C01.part_kinds', 'Ructe.C01.node_head', 'Ructe.C01.manyTillGo_chain'],
+                  'Ructe.C01.body_accounting', 'Ructe.C01.literal_bytes_accounted', 'Ructe.C01.block_accounting', 'Ructe.C01.part_kinds', 'Ructe.C01.node_head', 'Ructe.C01.manyTillGo_chain',
+                  'Ructe.C01.node_blocks', 'Ructe.C01.if2_blocks', 'Ructe.C01.argument_accounting', 'Ructe.C01.blockBody_accounting', 'Ructe.C01.templateArgument_body'],
         runs=[dict(suite='parse', mix='examples,text,structured', n=dict(quick=4000, thorough=80000), projection='body',
                    tags=['C01'], literal_oracle=True),
               dict(suite='parse', srcgen=dict(quick=600, thorough=6000), mix='srcgen', n=1, projection='body', tags=['C01'], literal_oracle=True),
@@ -131,7 +132,7 @@ PLANS = {
         correspondence='syntax tree of the parse and the body of the generated code vs Ructe.template / Ructe.writeRust; every printed text literal is decoded by the Lean model of rustc\'s literal lexer and compared with the text node',
         rule='every ASCII code point except @{} alone / at the start / middle / end of a run, at 7 nesting positions; random text over quotes, backslashes, CR/LF, NUL, controls, multi-byte scalars, escape look-alikes, the three escapes, comments; structured templates with their documented tree; non-trivial = distinct accepted syntax trees',
         assumptions=['rustc lexes literals as the Rust Reference says (modelled by decodeStrLit / decodeByteStrLit; rustc itself is the judge in the e2e runs)'],
-        level_text='Proved for all inputs: textLit_ascii / textLit_nonascii (the printed literal lexes to exactly the text: every byte string resp. every valid UTF-8 text, every uniEsc), text_node_sound / comment_node_sound / node_consumes (what a text or comment node accounts for in the source), text_complete / escapes_complete, lower_text, render_text; with C11.template_accepts_whole every byte is accounted for: C01Body proves this for EVERY accepted template, with no well-formedness hypothesis: body_accounting (the input is the header followed by the spans of the body nodes, in order, without gaps or overlaps), literal_bytes_accounted (every part is literal text whose node carries exactly the bytes of the span, one of the three escapes, or an @-construct whose span starts with @ - nothing dropped, duplicated or reordered), block_accounting (the same inside every block body and match arm). In the other direction C13Header.template_complete / C15Tree.body_complete: every well-formed source (header + body tree, any nesting) parses to exactly its intended tree, text nodes and escapes at every nesting position byte for byte, comments as comment nodes, and the only dropped body text is the layout after the declaration (hypothesis StopsLayout on the body, with the counterexample that forces it). Tie: differential run on tree and code, printed literals decoded by the model lexer, rustc end-to-end rendering.',
+        level_text='Proved for all inputs: textLit_ascii / textLit_nonascii (the printed literal lexes to exactly the text: every byte string resp. every valid UTF-8 text, every uniEsc), text_node_sound / comment_node_sound / node_consumes (what a text or comment node accounts for in the source), text_complete / escapes_complete, lower_text, render_text; with C11.template_accepts_whole every byte is accounted for: C01Body proves this for EVERY accepted template, with no well-formedness hypothesis: body_accounting (the input is the header followed by the spans of the body nodes, in order, without gaps or overlaps), literal_bytes_accounted (every part is literal text whose node carries exactly the bytes of the span, one of the three escapes, or an @-construct whose span starts with @ - nothing dropped, duplicated or reordered), block_accounting (the same inside every block body and match arm); C01Blocks closes the recursion: node_blocks (every list of nodes directly inside any node - the body of an @if and of its else, of an @for, every @match arm, every {..} block argument of a call - was produced by template_block resp. many0(template_expression) on a piece of the source; an else-if is again an @if node), so blockBody_accounting / argument_accounting apply at every nesting position. In the other direction C13Header.template_complete / C15Tree.body_complete: every well-formed source (header + body tree, any nesting) parses to exactly its intended tree, text nodes and escapes at every nesting position byte for byte, comments as comment nodes, and the only dropped body text is the layout after the declaration (hypothesis StopsLayout on the body, with the counterexample that forces it). Tie: differential run on tree and code, printed literals decoded by the model lexer, rustc end-to-end rendering.',
         level_note='Trusted: Lean kernel; hand-written model of the parser/emitter and of Rust literal syntax.',
         design_ref='DESIGN.md §6 C01',
     ),
@@ -201,7 +202,7 @@ PLANS = {
     'C10': dict(
         module='RucteProps.C10',
         extra_modules=['RucteProps.C10Tree', 'RucteProps.C18Order'],
-        needs_tables=True,
+        needs_tables=['suffixes'],
         theorems=['Ructe.C10.others_silent', 'Ructe.C10.valid_template_declared', 'Ructe.C10.broken_template_reported', 'Ructe.C10.subdir_declared', 'Ructe.C10.handleEntries_append', 'Ructe.C10.suffix_table', 'Ructe.C10.tree_mirror_file', 'Ructe.C10.subdir_mod_declared', 'Ructe.C10.template_fn_declared', 'Ructe.C10.decl_only_with_file', 'Ructe.C18.broken_isolated'],
         runs=[dict(suite='script', mix='tree', n=dict(quick=200, thorough=1500), projection='script+files+stdout', tags=['C10'])],
         correspondence='the whole OUT_DIR (paths and bytes) and stdout of compile_templates on a directory tree vs Ructe.build given the observed read_dir order',
@@ -294,7 +295,7 @@ PLANS = {
         theorems=['Ructe.C19.mime03_rows_correct', 'Ructe.C19.mime03_default', 'Ructe.C19.httpTypes_rows_correct', 'Ructe.C19.httpTypes_default',
                   'Ructe.C19.lookups_lowercase', 'Ructe.C19.format_prefix', 'Ructe.C19.mime03_never_other', 'Ructe.C19.httpTypes_never_other',
                   'Ructe.C19.mime_case_insensitive'],
-        needs_tables=True,
+        needs_tables=['mime'],
         custom='exec_mime', custom_search='search_mime',
         correspondence='mime_arg(suffix) under each MIME feature vs Ructe.mimeArg over the tables translated from the source on this run',
         rule='both MIME features x every suffix of either table and of the specification x 4 case variants, plus unknown, empty, near-miss and non-ASCII suffixes: a finite space, enumerated completely',
@@ -317,8 +318,8 @@ PLANS = {
     ),
     'C03': dict(
         module='RucteProps.C03',
-        extra_modules=['RucteProps.C15Tree', 'RucteProps.C01Body'],
-        theorems=['Ructe.C15Tree.no_swallow_after_block', 'Ructe.C15Tree.block_complete', 'Ructe.C01.block_accounting', 'Ructe.C03.render_if_taken', 'Ructe.C03.render_else_if', 'Ructe.C03.else_if_flattening', 'Ructe.C03.render_for', 'Ructe.C03.render_match', 'Ructe.C03.render_seq', 'Ructe.C03.render_fuel_mono'],
+        extra_modules=['RucteProps.C15Tree', 'RucteProps.C01Body', 'RucteProps.C01Blocks'],
+        theorems=['Ructe.C15Tree.no_swallow_after_block', 'Ructe.C15Tree.block_complete', 'Ructe.C01.block_accounting', 'Ructe.C01.node_blocks', 'Ructe.C03.render_if_taken', 'Ructe.C03.render_else_if', 'Ructe.C03.else_if_flattening', 'Ructe.C03.render_for', 'Ructe.C03.render_match', 'Ructe.C03.render_seq', 'Ructe.C03.render_fuel_mono'],
         runs=[dict(suite='e2e', n=dict(quick=800, thorough=12000), projection='identity', tags=['C03']),
               dict(suite='parse', mix='structured,examples', n=dict(quick=1500, thorough=25000), projection='body', tags=['C03'])],
         correspondence='bytes written by the rustc-compiled generated functions vs Ructe.renderL (specification semantics under the mini-Rust Sem) of the model\'s parse; syntax tree and body code of structured templates vs the model',
@@ -886,6 +887,44 @@ def mime_oracle(res, feat):
     return fails
 
 
+def items_mime_oracle(res, feat):
+    """C19 on whole generated modules: every item of every statics.rs a run produced carries the registered type
+    of the suffix of its *published name* (whatever entry point added it, incl. the CSS compiled by add_sass_file)"""
+    consts = mime03_constants() if feat == 'mime03' else HTTP_TYPES_CONSTANTS
+    fails, n = [], 0
+    for i, (req, ans) in enumerate(zip(res['req'], res['impl'])):
+        if not req.startswith('script '):
+            continue
+        for path, text in answer_files(ans).items():
+            if not path.endswith('/statics.rs'):
+                continue
+            for m in ITEM_RE.finditer(text.decode('utf-8', 'replace')):
+                n += 1
+                from_lit, name_lit, c = m.group(1), m.group(4), m.group(5)
+                name = name_lit.strip('"')
+                # a hashed name (`stem-<8 chars>.ext`) carries the file's suffix; a verbatim URL name (add_file_as)
+                # may be anything: there the suffix is that of the source file
+                which = name if re.search(r'-[A-Za-z0-9_-]{8}\.[^./]*$', name) else from_lit.strip('"')
+                base = which.rsplit('/', 1)[-1]
+                suffix = base.rsplit('.', 1)[1] if '.' in base[1:] else ''
+                low = suffix.lower()
+                if c is None:
+                    fails.append(dict(tags=['C19'], kind='item-without-mime', case=i, detail=f'feature {feat}: item {name_lit} has no mime field'))
+                    continue
+                c = c.replace('mime::', '')
+                t = consts.get(c)
+                if t is None:
+                    fails.append(dict(tags=['C19'], kind='constant-missing', case=i, detail=f'feature {feat}: item {name_lit} names mime::{c}, which does not exist in the crate'))
+                elif low in REGISTERED and t in REGISTERED[low]:
+                    pass
+                elif t == 'application/octet-stream' and low not in MUST_KNOW[feat]:
+                    pass
+                else:
+                    fails.append(dict(tags=['C19'], kind='item-wrong-type', case=i,
+                                      detail=f'feature {feat}: the static published as {name_lit} has mime::{c} ({t}), expected {" or ".join(REGISTERED.get(low, ["application/octet-stream"]))}'))
+    return fails, n
+
+
 def exec_mime(prop, plan, ctx):
     disagreements, oracle, samples = [], [], []
     cov = dict(evaluations=0, distinct_nontrivial=0, distribution={}, exhaustive=True)
@@ -919,6 +958,9 @@ def exec_mime(prop, plan, ctx):
             disagreements += d2
             ef, njobs = statics_e2e(res2, ctx, ['C19'], feat='mime03', limit=dict(quick=16, thorough=120)[ctx['tier']])
             oracle += ef
+            f2, n2 = items_mime_oracle(res2, 'mime03')
+            oracle += f2
+            res2['stats']['items.mime_checked'] = n2
             res2['stats']['statics.e2e_modules_compiled'] = njobs
             cov['distribution']['script:mime03'] = res2['stats']
             cov['evaluations'] += len(res2['req'])
@@ -928,6 +970,20 @@ def exec_mime(prop, plan, ctx):
                     _sh.rmtree(json.loads(l)['root'], ignore_errors=True)
                 except Exception:
                     pass
+    # the MIME feature together with `sass`: the stylesheet compiled by add_sass_file is a static like any other
+    # and must be served as CSS (rsass is opaque to the model: oracle on the generated module only)
+    binary, err = ctx['build_harness'](['mime03', 'sass'])
+    if binary is None:
+        return dict(error='harness build with features mime03,sass failed: ' + err[-1500:])
+    r3 = dict(suite='script', mix='sassimports', n=dict(quick=25, thorough=250), projection='script+', tags=['C19'])
+    res3 = ctx['run_suite'](binary, ctx['driver'], r3, ctx['tier'], ctx['seed'], f"{ctx['work']}/mime-sass")
+    if 'error' in res3:
+        return dict(error=res3['error'])
+    f3, n3 = items_mime_oracle(res3, 'mime03')
+    oracle += f3
+    res3['stats']['items.mime_checked'] = n3
+    cov['distribution']['script:mime03+sass'] = res3['stats']
+    cov['evaluations'] += len(res3['req'])
     return dict(disagreements=disagreements, oracle=oracle, coverage=cov, samples=samples)
 
 
